@@ -32,12 +32,20 @@ pub enum AlgMode {
     NoneUpper,
     Absent,
     Unknown(String),
-    /// HS256 with the MAC keyed by the bytes of a roster public key (PEM text).
-    HsWithPubPem(String),
+    /// HS* with the MAC keyed by the bytes of a roster public key in one of the encodings an
+    /// attacker would try: PEM text, SPKI DER, raw point / raw key bytes.
+    HsWithPub { kid: String, form: PubForm, hs: String },
     /// Header names another algorithm, signature untouched.
     Relabel(String),
     /// Re-signed by a roster key of another family under that family's algorithm.
     ResignOtherFamily(String),
+}
+
+#[derive(Clone, Copy, Debug, Serialize, Deserialize, PartialEq)]
+pub enum PubForm {
+    Pem,
+    Der,
+    Raw,
 }
 
 #[derive(Clone, Debug, Serialize, Deserialize, PartialEq)]
@@ -94,6 +102,8 @@ pub enum Fault {
     GarbageDisclosure { text: String, at: usize },
     StripKb,
     EmptyKb,
+    /// the trailing `~` of a compact message was lost: the last disclosure sits in the KB slot
+    LastDisclosureIntoKbSlot,
     ReplayKb { from: usize },
     /// KB-JWT rebuilt over the *current* message by `key` (holder, non-holder, issuer …).
     ResignKb { key: String, alg: String, aud: String, nonce: String },
@@ -122,6 +132,7 @@ impl Fault {
             Fault::ForeignDisclosure { .. } => "foreign_disclosure",
             Fault::GarbageDisclosure { .. } => "garbage_disclosure",
             Fault::StripKb => "strip_kb",
+            Fault::LastDisclosureIntoKbSlot => "lost_trailing_separator",
             Fault::EmptyKb => "empty_kb",
             Fault::ReplayKb { .. } => "replay_kb",
             Fault::ResignKb { .. } => "resign_kb",
@@ -503,9 +514,14 @@ pub fn apply(f: &Fault, m: &mut Message, tokens: &[Message], w: &mut World, now:
                     h.insert("alg".into(), json!(s));
                     m.h = model::encode_json(&Value::Object(h));
                 }
-                AlgMode::HsWithPubPem(kid) => {
-                    h.insert("alg".into(), json!("HS256"));
-                    let t = World::hs_sign_raw(&Value::Object(h), &m.p, keys::pub_pem(kid).as_bytes());
+                AlgMode::HsWithPub { kid, form, hs } => {
+                    h.insert("alg".into(), json!(hs));
+                    let secret: Vec<u8> = match form {
+                        PubForm::Pem => keys::pub_pem(kid).as_bytes().to_vec(),
+                        PubForm::Der => keys::pub_der(kid),
+                        PubForm::Raw => keys::pub_raw(kid),
+                    };
+                    let t = World::hs_sign_raw(&Value::Object(h), &m.p, &secret, hs);
                     let v: Vec<&str> = t.split('.').collect();
                     if v.len() == 3 {
                         m.h = v[0].into();
@@ -555,6 +571,13 @@ pub fn apply(f: &Fault, m: &mut Message, tokens: &[Message], w: &mut World, now:
             m.disclosures.insert(at, text.clone());
         }
         Fault::StripKb => m.kb = None,
+        Fault::LastDisclosureIntoKbSlot => {
+            if m.kb.is_none() {
+                if let Some(d) = m.disclosures.pop() {
+                    m.kb = Some(d);
+                }
+            }
+        }
         Fault::EmptyKb => m.kb = Some(String::new()),
         Fault::ReplayKb { from } => {
             if let Some(kb) = tokens.get(*from).and_then(|t| t.kb.clone()) {
